@@ -380,7 +380,7 @@ func c12Registry(c *Ctx, r *Report) {
 		merged := map[string]bool{}
 		walk(retv, 0, merged)
 		sorted := false
-		for _, sc := range callsTo(rn, "sort.Strings") {
+		for _, sc := range stringSortCalls(rn) {
 			if sc.Common().Args[0] == retv && instrDominates(sc, ret) {
 				sorted = true
 			}
@@ -490,189 +490,160 @@ func c12Register(c *Ctx, r *Report, impl string, fn *ssa.Function) {
 		r.Unk("register-shape", id, fn.Pos(), "unexpected parameter list")
 		return
 	}
-	lintP, nameP, srcP := fn.Params[1], fn.Params[2], fn.Params[3]
-	// success returns
-	var succ []*ssa.Return
-	for _, ret := range realReturns(fn) {
-		if len(ret.Results) == 1 && isNilConst(retVals(ret)[0]) {
-			succ = append(succ, ret)
+	lintP, nameP, srcP := fn.Params[1].Name(), fn.Params[2].Name(), fn.Params[3].Name()
+	// decision table (helpers introduced later are inlined by the engine)
+	outs, abort := Enumerate(fn, SymOpts{Inline: func(*ssa.Function) bool { return false }})
+	if abort != "" {
+		r.Unk("register-shape", id, fn.Pos(), abort)
+		return
+	}
+	// the elements appended by append(base, elems...) when written as a variadic literal
+	elems := func(o *Outcome, t *T) (base string, es []string) {
+		args, ok := t.CallNamed("builtin:append")
+		if !ok || len(args) != 2 {
+			return "", nil
+		}
+		base = args[0].String()
+		va := args[1]
+		if va.Op == "slice" && len(va.Args) > 0 {
+			pre := "&" + strings.TrimPrefix(va.Args[0].String(), "&") + "["
+			var ks []string
+			for k := range o.Mem {
+				if strings.HasPrefix(k, pre) {
+					ks = append(ks, k)
+				}
+			}
+			sort.Strings(ks)
+			for _, k := range ks {
+				es = append(es, o.Mem[k].String())
+			}
+		}
+		return base, es
+	}
+	isTable := func(s, tbl string) bool {
+		s = strings.TrimPrefix(s, "&")
+		return strings.HasPrefix(s, "lookup.") && lastField(s) == tbl
+	}
+	nSucc := 0
+	missing := map[string]bool{}
+	unsorted, earlyUpdate := false, ""
+	sawEmpty, sawDup := false, false
+	for _, o := range outs {
+		if o.Kind != "return" || len(o.Results) != 1 {
+			r.Unk("register-shape", id, fn.Pos(), "path not understood: "+o.Kind+" "+o.Why)
+			return
+		}
+		success := o.Results[0].IsNil()
+		got := map[string]int{} // table → index of the event in the trace
+		sortAt := -1
+		for i, ev := range o.Trace {
+			switch ev.Kind {
+			case "store":
+				if len(ev.Args) != 1 {
+					continue
+				}
+				dst := ev.Name
+				base, es := elems(o, ev.Args[0])
+				if isTable(dst, "lints") && isTable(base, "lints") && len(es) == 1 && es[0] == lintP {
+					got["lints"] = i
+				} else if isTable(dst, "lintNames") && isTable(base, "lintNames") && len(es) == 1 && es[0] == nameP {
+					got["lintNames"] = i
+				} else if strings.HasPrefix(strings.TrimPrefix(dst, "&"), "lookup.") {
+					got["other:"+dst] = i
+				}
+			case "mapupdate":
+				if len(ev.Args) != 2 {
+					continue
+				}
+				m, k, v := ev.Name, ev.Args[0].String(), ev.Args[1]
+				switch {
+				case isTable(m, "lintsByName") && k == nameP && v.String() == lintP:
+					got["lintsByName"] = i
+				case isTable(m, "sources") && k == srcP:
+					got["sources"] = i
+				case isTable(m, "lintsBySource") && k == srcP:
+					base, es := elems(o, v)
+					if strings.Contains(base, "lintsBySource") && strings.Contains(base, srcP) && len(es) == 1 && es[0] == lintP {
+						got["lintsBySource"] = i
+					}
+				default:
+					if strings.HasPrefix(m, "lookup.") {
+						got["other:"+m] = i
+					}
+				}
+			case "call":
+				if isStringSortName(ev.Name) && len(ev.Args) == 1 {
+					a := ev.Args[0].String()
+					if _, isApp := ev.Args[0].CallNamed("builtin:append"); isApp || isTable(a, "lintNames") {
+						if base, _ := elems(o, ev.Args[0]); isApp && !isTable(base, "lintNames") {
+							continue
+						}
+						sortAt = i
+					}
+				}
+			}
+		}
+		if success {
+			nSucc++
+			for _, tbl := range []string{"lints", "lintNames", "lintsByName", "sources", "lintsBySource"} {
+				if _, ok := got[tbl]; !ok {
+					missing[tbl] = true
+				}
+			}
+			if at, ok := got["lintNames"]; !ok || sortAt < at {
+				unsorted = true
+			}
+			// the success path passed both guards
+			cs := o.CondString()
+			if !strings.Contains(cs, "!("+nameP+` == "")`) && !strings.Contains(cs, "("+nameP+` != "")`) {
+				sawEmpty = sawEmpty || false
+			}
+		} else {
+			if len(got) > 0 {
+				for k := range got {
+					earlyUpdate = k
+				}
+			}
+			cs := o.CondString()
+			if strings.Contains(cs, "("+nameP+` == "")`) && !strings.Contains(cs, "!("+nameP+` == "")`) {
+				sawEmpty = true
+			}
+			if strings.Contains(cs, "lintsByName") && strings.Contains(cs, nameP) {
+				sawDup = true
+			}
 		}
 	}
-	if len(succ) == 0 {
+	if nSucc == 0 {
 		r.Unk("register-shape", id, fn.Pos(), "no success return found")
 		return
 	}
-	type upd struct {
-		in   ssa.Instruction
-		what string
-	}
-	var updates []upd
-	found := map[string]ssa.Instruction{}
-	allInstrs(fn, func(in ssa.Instruction) {
-		switch x := in.(type) {
-		case *ssa.Store:
-			f, p, ok := fieldOfAddr(x.Addr)
-			if !ok || !strings.HasPrefix(p, "&lookup.") {
-				return
-			}
-			updates = append(updates, upd{in, f})
-			if call, ok := x.Val.(*ssa.Call); ok {
-				if b, ok := call.Call.Value.(*ssa.Builtin); ok && b.Name() == "append" {
-					src := lastField(apath(call.Call.Args[0]))
-					elem := appendedElems(call)
-					if f == "lints" && src == "lints" && len(elem) == 1 && elem[0] == lintP {
-						found["lints"] = in
-					}
-					if f == "lintNames" && src == "lintNames" && len(elem) == 1 && elem[0] == nameP {
-						found["lintNames"] = in
-					}
-				}
-			}
-		case *ssa.MapUpdate:
-			m := lastField(apath(x.Map))
-			if !strings.HasPrefix(apath(x.Map), "lookup.") {
-				return
-			}
-			updates = append(updates, upd{in, m})
-			switch m {
-			case "lintsByName":
-				if x.Key == nameP && x.Value == lintP {
-					found["lintsByName"] = in
-				}
-			case "sources":
-				if x.Key == srcP {
-					found["sources"] = in
-				}
-			case "lintsBySource":
-				if x.Key == srcP {
-					if call, ok := x.Value.(*ssa.Call); ok {
-						if b, ok := call.Call.Value.(*ssa.Builtin); ok && b.Name() == "append" {
-							elem := appendedElems(call)
-							base := apath(call.Call.Args[0])
-							if len(elem) == 1 && elem[0] == lintP && strings.HasSuffix(base, "lintsBySource["+srcP.Name()+"]") {
-								found["lintsBySource"] = in
-							}
-						}
-					}
-				}
-			}
-		}
-	})
 	for _, tbl := range []string{"lints", "lintNames", "lintsByName", "sources", "lintsBySource"} {
-		in := found[tbl]
-		ok := in != nil
-		if ok {
-			for _, s := range succ {
-				if !instrDominates(in, s) {
-					ok = false
-				}
-			}
-		}
-		r.Check(ok, "register-updates", id+"|"+tbl, fn.Pos(), "updated on every successful registration",
+		r.Check(!missing[tbl], "register-updates", id+"|"+tbl, fn.Pos(), "updated on every successful registration",
 			"table "+tbl+" is not updated with the registered lint/name/source on every path to the success return: lookups by name, by source, the listing and the source list would disagree")
 	}
-	// sort after the append of lintNames, before success
-	okSort := false
-	for _, sc := range callsTo(fn, "sort.Strings") {
-		if lastField(apath(sc.Common().Args[0])) == "lintNames" && found["lintNames"] != nil && instrDominates(found["lintNames"], sc) {
-			okSort = true
-			for _, s := range succ {
-				if !instrDominates(sc, s) {
-					okSort = false
-				}
-			}
+	r.Check(!unsorted, "register-sorts", id, fn.Pos(), "lintNames sorted after the append", "lintNames is not re-sorted after the append on the success path: Names() would no longer be sorted")
+	r.Check(sawEmpty && earlyUpdate == "", "register-empty-name", id, fn.Pos(), "empty name rejected before any update", "an empty lint name is no longer rejected before the tables are updated"+map[bool]string{true: " (an error path updates " + earlyUpdate + ")", false: ""}[earlyUpdate != ""])
+	r.Check(sawDup && earlyUpdate == "", "register-duplicate-name", id, fn.Pos(), "duplicate name rejected before any update", "a name already present in lintsByName is no longer rejected before the tables are updated: two lints would share one result slot")
+}
+
+// stringSortCalls: the calls in fn that sort a []string (sort.Strings, slices.Sort).
+func stringSortCalls(fn *ssa.Function) []ssa.CallInstruction {
+	var out []ssa.CallInstruction
+	allInstrs(fn, func(in ssa.Instruction) {
+		if c, ok := in.(ssa.CallInstruction); ok && isStringSortName(staticCalleeName(c.Common())) {
+			out = append(out, c)
 		}
+	})
+	return out
+}
+
+// isStringSortName: a call that sorts a []string in increasing order.
+func isStringSortName(name string) bool {
+	switch name {
+	case "sort.Strings", "slices.Sort[[]string string]", "slices.Sort[[]string,string]", "slices.Sort":
+		return true
 	}
-	r.Check(okSort, "register-sorts", id, fn.Pos(), "sort.Strings(lintNames) after the append", "lintNames is not re-sorted after the append on the success path: Names() would no longer be sorted")
-	// guards: name == "" and duplicate → error return dominating every update
-	var first ssa.Instruction
-	for _, u := range updates {
-		if first == nil || instrDominates(u.in, first) {
-			first = u.in
-		}
-	}
-	okEmpty, okDup := false, false
-	if first != nil {
-		for d := first.Block(); d != nil; d = d.Idom() {
-			id2 := d.Idom()
-			if id2 == nil {
-				break
-			}
-			iff, ok := id2.Instrs[len(id2.Instrs)-1].(*ssa.If)
-			if !ok {
-				continue
-			}
-			bo, ok := iff.Cond.(*ssa.BinOp)
-			if !ok {
-				continue
-			}
-			cont := 1 // successor on which registration continues
-			if bo.Op == token.NEQ {
-				cont = 0
-			} else if bo.Op != token.EQL {
-				continue
-			}
-			stop := id2.Succs[1-cont]
-			if !(len(id2.Succs[cont].Preds) == 1 && id2.Succs[cont].Dominates(first.Block())) {
-				continue
-			}
-			// the stop branch must return a non-nil error
-			retErr := false
-			if ret, ok := stop.Instrs[len(stop.Instrs)-1].(*ssa.Return); ok && len(ret.Results) == 1 && !isNilConst(retVals(ret)[0]) {
-				retErr = true
-			}
-			if !retErr {
-				continue
-			}
-			x, y := apath(bo.X), apath(bo.Y)
-			if bo.Op == token.EQL && ((x == nameP.Name() && y == `""`) || (y == nameP.Name() && x == `""`)) {
-				okEmpty = true
-			}
-			// duplicate: lookup.lintsByName[name] != nil → stop ; encoded as (existing != nil) with cont on false edge
-			if bo.Op == token.NEQ {
-				// cont computed as 0 above is wrong for the duplicate test: there the NEQ-true edge stops
-			}
-		}
-		// duplicate test handled separately (NEQ-true edge returns the error)
-		for d := first.Block(); d != nil; d = d.Idom() {
-			id2 := d.Idom()
-			if id2 == nil {
-				break
-			}
-			iff, ok := id2.Instrs[len(id2.Instrs)-1].(*ssa.If)
-			if !ok {
-				continue
-			}
-			bo, ok := iff.Cond.(*ssa.BinOp)
-			if !ok {
-				continue
-			}
-			var lk ssa.Value
-			if isNilConst(bo.Y) {
-				lk = bo.X
-			} else if isNilConst(bo.X) {
-				lk = bo.Y
-			} else {
-				continue
-			}
-			p := apath(lk)
-			if !(strings.HasSuffix(p, "lintsByName["+nameP.Name()+"]") || strings.HasSuffix(p, "lintsByName["+nameP.Name()+"]#0")) {
-				continue
-			}
-			stopIdx := 0
-			if bo.Op == token.EQL {
-				stopIdx = 1
-			}
-			stop, cont := id2.Succs[stopIdx], id2.Succs[1-stopIdx]
-			if ret, ok := stop.Instrs[len(stop.Instrs)-1].(*ssa.Return); ok && len(ret.Results) == 1 && !isNilConst(retVals(ret)[0]) {
-				if len(cont.Preds) == 1 && cont.Dominates(first.Block()) {
-					okDup = true
-				}
-			}
-		}
-	}
-	r.Check(okEmpty, "register-empty-name", id, fn.Pos(), "empty name rejected before any update", "an empty lint name is no longer rejected before the tables are updated")
-	r.Check(okDup, "register-duplicate-name", id, fn.Pos(), "duplicate name rejected before any update", "a name already present in lintsByName is no longer rejected before the tables are updated: two lints would share one result slot")
+	return strings.HasPrefix(name, "slices.Sort[") && strings.Contains(name, "string")
 }
 
 // appendedElems: for append(s, a, b...) built as a slice literal, return the
